@@ -394,9 +394,6 @@ theorem vermK_spec (a f p q : ℝ) (he : f * (2 - f) ≠ 0) (hp : 0 ≤ p) (hq :
 example : ((-1:ℝ) * (2 - -1) ≠ 0) ∧ ¬ (((-1:ℝ) * (2 - -1)) ^ 2 * (1 / 100) = 0 ∧ (1 / 100 + 1 / 100 - ((-1:ℝ) * (2 - -1)) ^ 2) / 6 ≤ 0) := by
   constructor <;> norm_num
 
-theorem nested_norm (X Y Z : ℝ) : Real.sqrt (Real.sqrt (X ^ 2 + Y ^ 2) ^ 2 + Z ^ 2) = Real.sqrt (X ^ 2 + Y ^ 2 + Z ^ 2) := by
-  rw [Real.sq_sqrt (by positivity)]
-
 /--
 **(a)–(d) `IntReverse` inverts `IntForward` in every branch below the far-field threshold.**  For every ellipsoid
 (`a > 0`, `f < 1`: oblate, prolate, sphere) and every point `(X, Y, Z)` with `|P| ≤ maxrad` — general position on either
@@ -456,10 +453,6 @@ theorem reverseM_frame_isRot (a f maxrad X Y Z : ℝ) (ha : 0 < a) (hf : f < 1) 
     IsRot (reverseM (⟨a, f⟩ : Ell ℝ) maxrad X Y Z).M := by
   obtain ⟨h1, h2, _⟩ := reverse_unit a f maxrad X Y Z ha hf hmr
   exact rotation_isRot _ _ _ _ h1 h2
-
-theorem deg_rad (x : ℝ) : x * 180 / Real.pi * Real.pi / 180 = x := by
-  have := Real.pi_ne_zero
-  field_simp
 
 theorem sind_atan2d (s c : ℝ) (h : s ^ 2 + c ^ 2 = 1) : sind (atan2d s c) = s ∧ cosd (atan2d s c) = c := by
   obtain ⟨h1, h2⟩ := arg_unit s c h
@@ -567,6 +560,72 @@ theorem reverse_farfield_bound (a f maxrad X Y Z : ℝ) (ha : 0 < a) (hf : f < 1
 example : (10:ℝ) < Real.sqrt (100 ^ 2 + 0 ^ 2 + 0 ^ 2) := by
   rw [Real.lt_sqrt (by norm_num)]; norm_num
 
+
+/--
+**(f) in the far field — partial.**  Full statement one would like: the returned `h` is the distance from `P` to the ellipsoid.
+That is false beyond `maxrad` by construction (`h = |P|`, the code "treats the earth as a point"); what holds, and is proved
+here, is the lower half of `|h − dist(P, ellipsoid)| ≤ max(a, b)`: every point of the ellipsoid is at least
+`h − a·max(1, 1−f)` away from `P` (with `maxrad = 2a/ε` that is a relative `ε/2·max(1, 1−f)` of `h`).  The upper half
+(`dist ≤ h`) is not formalised.
+-/
+theorem reverse_farfield_height_partial (a f maxrad X Y Z : ℝ) (ha : 0 < a) (hf : f < 1) (hmr : 0 ≤ maxrad)
+    (hmax : maxrad < Real.sqrt (X ^ 2 + Y ^ 2 + Z ^ 2))
+    (hbig : a * max 1 (1 - f) ≤ Real.sqrt (X ^ 2 + Y ^ 2 + Z ^ 2)) :
+    let rv := reverse (⟨a, f⟩ : Ell ℝ) maxrad X Y Z
+    ∀ x y z : ℝ, (x ^ 2 + y ^ 2) / a ^ 2 + z ^ 2 / (a * (1 - f)) ^ 2 = 1 →
+      (rv.h - a * max 1 (1 - f)) ^ 2 ≤ (X - x) ^ 2 + (Y - y) ^ 2 + (Z - z) ^ 2 := by
+  intro rv x y z hQ
+  obtain ⟨hh, _, _⟩ := reverse_farfield_bound a f maxrad X Y Z ha hf hmr hmax
+  have hh' : rv.h = Real.sqrt (X ^ 2 + Y ^ 2 + Z ^ 2) := hh
+  rw [hh']
+  set M := a * max 1 (1 - f) with hM
+  set p := Real.sqrt (X ^ 2 + Y ^ 2 + Z ^ 2) with hp
+  have hp0 : 0 ≤ p := Real.sqrt_nonneg _
+  have hp2 : p ^ 2 = X ^ 2 + Y ^ 2 + Z ^ 2 := Real.sq_sqrt (by positivity)
+  have h1f : 0 < 1 - f := by linarith
+  have hMa : a ≤ M := by
+    have := mul_le_mul_of_nonneg_left (le_max_left (1:ℝ) (1 - f)) ha.le
+    rw [hM]; linarith
+  have hMb : a * (1 - f) ≤ M := mul_le_mul_of_nonneg_left (le_max_right (1:ℝ) (1 - f)) ha.le
+  have hM0 : 0 < M := lt_of_lt_of_le ha hMa
+  -- |Q| ≤ M
+  set q := Real.sqrt (x ^ 2 + y ^ 2 + z ^ 2) with hq
+  have hq0 : 0 ≤ q := Real.sqrt_nonneg _
+  have hq2 : q ^ 2 = x ^ 2 + y ^ 2 + z ^ 2 := Real.sq_sqrt (by positivity)
+  have hb0 : 0 < a * (1 - f) := by positivity
+  have hqM : q ^ 2 ≤ M ^ 2 := by
+    have ha2 : a ^ 2 ≤ M ^ 2 := pow_le_pow_left₀ ha.le hMa 2
+    have hb2 : (a * (1 - f)) ^ 2 ≤ M ^ 2 := pow_le_pow_left₀ hb0.le hMb 2
+    have e1 : x ^ 2 + y ^ 2 ≤ M ^ 2 * ((x ^ 2 + y ^ 2) / a ^ 2) := by
+      rw [mul_div_assoc', le_div_iff₀ (by positivity)]
+      have := mul_le_mul_of_nonneg_left ha2 (by positivity : (0:ℝ) ≤ x ^ 2 + y ^ 2)
+      linarith
+    have e2 : z ^ 2 ≤ M ^ 2 * (z ^ 2 / (a * (1 - f)) ^ 2) := by
+      rw [mul_div_assoc', le_div_iff₀ (by positivity)]
+      have := mul_le_mul_of_nonneg_left hb2 (sq_nonneg z)
+      linarith
+    have : M ^ 2 * ((x ^ 2 + y ^ 2) / a ^ 2) + M ^ 2 * (z ^ 2 / (a * (1 - f)) ^ 2) = M ^ 2 := by
+      rw [← mul_add, hQ, mul_one]
+    rw [hq2]; linarith
+  have hqM' : q ≤ M := by
+    have := abs_le_of_sq_le_sq' hqM hM0.le
+    exact this.2
+  -- Cauchy–Schwarz
+  have hcs : (X * x + Y * y + Z * z) ^ 2 ≤ (p * q) ^ 2 := by
+    rw [mul_pow, hp2, hq2]
+    have lag : (X ^ 2 + Y ^ 2 + Z ^ 2) * (x ^ 2 + y ^ 2 + z ^ 2) - (X * x + Y * y + Z * z) ^ 2 =
+        (X * y - Y * x) ^ 2 + (X * z - Z * x) ^ 2 + (Y * z - Z * y) ^ 2 := by ring
+    linarith [sq_nonneg (X * y - Y * x), sq_nonneg (X * z - Z * x), sq_nonneg (Y * z - Z * y)]
+  have hdot : X * x + Y * y + Z * z ≤ p * q := (abs_le_of_sq_le_sq' hcs (by positivity)).2
+  have hexp : (X - x) ^ 2 + (Y - y) ^ 2 + (Z - z) ^ 2 = p ^ 2 - 2 * (X * x + Y * y + Z * z) + q ^ 2 := by
+    rw [hp2, hq2]; ring
+  rw [hexp]
+  have h1 : (p - q) ^ 2 ≤ p ^ 2 - 2 * (X * x + Y * y + Z * z) + q ^ 2 := by
+    have : (p - q) ^ 2 = p ^ 2 - 2 * (p * q) + q ^ 2 := by ring
+    rw [this]; linarith
+  have h2 : (p - M) ^ 2 ≤ (p - q) ^ 2 := pow_le_pow_left₀ (by linarith) (by linarith) 2
+  linarith
+
 /--
 **(f) the height of least magnitude, forward form.**  If the point `forward(φ, λ, h)` lies on the same side of the rotation
 axis and of the equatorial plane as its foot point (`N + h ≥ 0` and `(1−f)²N + h ≥ 0`, `N = a/√(1 − e² sin²φ)`), then no
@@ -638,6 +697,58 @@ theorem reverse_height_least (a f maxrad X Y Z : ℝ) (ha : 0 < a) (hf : f < 1)
       · have : 0 < (1 - f) ^ 2 * rv.sphi ^ 2 := by positivity
         nlinarith [sq_nonneg rv.cphi]
     exact forward_on_ellipsoid (⟨a, f⟩ : Ell ℝ) rv.sphi rv.cphi rv.slam rv.clam hm.unit hl ha.ne' (by linarith) hpos
+
+
+/--
+**Forward followed by Reverse is the identity** (over ℝ, on the executed model): for a unit pair `(sin φ, cos φ)` with
+`cos φ ≥ 0`, a unit pair `(sin λ, cos λ)` and a height with `N + h > 0` and `(1−e²)N + h > 0` (the point lies strictly on the
+near side of the rotation axis and of the equatorial plane — every `h > −min(N, (1−e²)N)`, in particular all geophysical
+heights), `Reverse` applied to `Forward(φ, λ, h)` (below the far-field threshold) returns `sin φ, cos φ, h` exactly, and
+`sin λ, cos λ` when `cos φ > 0` (on the axis the code returns `λ = 0`).
+-/
+theorem reverse_forward_id (a f maxrad s c sl cl h : ℝ) (ha : 0 < a) (hf : f < 1)
+    (hu : s ^ 2 + c ^ 2 = 1) (hl : sl ^ 2 + cl ^ 2 = 1) (hc : 0 ≤ c)
+    (hsR : 0 < a / Real.sqrt (1 - f * (2 - f) * s ^ 2) + h)
+    (hsZ : 0 < (1 - f) ^ 2 * (a / Real.sqrt (1 - f * (2 - f) * s ^ 2)) + h)
+    (hmax : ¬ maxrad < Real.sqrt ((forward (⟨a, f⟩ : Ell ℝ) s c sl cl h).1 ^ 2 + (forward (⟨a, f⟩ : Ell ℝ) s c sl cl h).2.1 ^ 2 +
+      (forward (⟨a, f⟩ : Ell ℝ) s c sl cl h).2.2 ^ 2)) :
+    let P := forward (⟨a, f⟩ : Ell ℝ) s c sl cl h
+    let rv := reverse (⟨a, f⟩ : Ell ℝ) maxrad P.1 P.2.1 P.2.2
+    rv.sphi = s ∧ rv.cphi = c ∧ rv.h = h ∧ (0 < c → rv.slam = sl ∧ rv.clam = cl) ∧ (c = 0 → rv.slam = 0 ∧ rv.clam = 1) := by
+  intro P rv
+  have hP : P = _ := forward_real a f s c sl cl h
+  set N := a / Real.sqrt (1 - f * (2 - f) * s ^ 2) with hN
+  set X := (N + h) * c * cl with hX
+  set Y := (N + h) * c * sl with hY
+  set Z := ((1 - f) ^ 2 * N + h) * s with hZ
+  have hP1 : P.1 = X := by rw [hP]
+  have hP2 : P.2.1 = Y := by rw [hP]
+  have hP3 : P.2.2 = Z := by rw [hP]
+  have hR : Real.sqrt (X ^ 2 + Y ^ 2) = (N + h) * c := by
+    have : X ^ 2 + Y ^ 2 = ((N + h) * c) ^ 2 := by rw [hX, hY]; linear_combination (((N + h) * c) ^ 2) * hl
+    rw [this, Real.sqrt_sq (mul_nonneg hsR.le hc)]
+  have hmax' : ¬ maxrad < Real.sqrt (Real.sqrt (X ^ 2 + Y ^ 2) ^ 2 + Z ^ 2) := by
+    rw [nested_norm]; rw [hP1, hP2, hP3] at hmax; exact hmax
+  obtain ⟨hm, hsl, hcl⟩ := reverse_facts a f maxrad X Y Z ha hf hmax'
+  have hrv : rv = reverse (⟨a, f⟩ : Ell ℝ) maxrad X Y Z := by
+    show reverse (⟨a, f⟩ : Ell ℝ) maxrad P.1 P.2.1 P.2.2 = _
+    rw [hP1, hP2, hP3]
+  rw [← hrv, hR] at hm hsl hcl
+  have h1 : Merid a f s c h ((N + h) * c) Z := ⟨hu, hc, rfl, rfl, hsR.le, hsZ.le⟩
+  obtain ⟨e1, e2, e3⟩ := merid_unique a f s c h rv.sphi rv.cphi rv.h ((N + h) * c) Z ha hf h1 hm hsR hsZ
+  refine ⟨e1, e2, e3, ?_, ?_⟩
+  · intro hcpos
+    have hne : (N + h) * c ≠ 0 := (mul_pos hsR hcpos).ne'
+    rw [hsl, hcl, if_neg hne, if_neg hne, hX, hY]
+    constructor <;> field_simp
+  · intro hc0
+    have hz : (N + h) * c = 0 := by rw [hc0, mul_zero]
+    rw [hsl, hcl, if_pos hz, if_pos hz]
+    exact ⟨rfl, rfl⟩
+
+/-- non-vacuity: the unit sphere, `φ = 0`, `λ = 0`, `h = 1` (so `N + h = 2 > 0`) -/
+example : (0:ℝ) < 1 / Real.sqrt (1 - 0 * (2 - 0) * (0:ℝ) ^ 2) + 1 := by
+  rw [show (1:ℝ) - 0 * (2 - 0) * (0:ℝ) ^ 2 = 1 by norm_num, Real.sqrt_one]; norm_num
 
 /-! ## LocalCartesian: `Reset`, the matrix-returning overloads, `Rotate`/`Unrotate` -/
 
